@@ -98,26 +98,48 @@ func placeholderise(matcher, cfg string) (string, map[string]string) {
 	return string(out), env
 }
 
-// placeholderiseFixed rewrites the first entry of "ranges" into {env.<name>} and returns the literal it stood for.
-func placeholderiseFixed(matcher, cfg, name string) (string, string) {
+// rotating lists, per matcher, the string option that the rotation law gives as {env.NAME} and the value that the variable
+// holds while an earlier instance is provisioned.
+var rotating = map[string][2]string{
+	"remote_ip": {"ranges[]", "203.0.113.77/32"},
+	"local_ip":  {"ranges[]", "203.0.113.77/32"},
+	"regexp":    {"pattern", "^\\x00never-matches$"},
+	"winbox":    {"username", "nobody-at-all"},
+	"rdp":       {"cookie_hash", "nobody-at-all"},
+}
+
+// placeholderiseFixed rewrites the matcher's rotating option (first entry of a list) into {env.<name>} and returns the
+// literal it stood for and the earlier value to use ("" if the configuration has no such option).
+func placeholderiseFixed(matcher, cfg, name string) (string, string, string) {
+	rot, ok := rotating[matcher]
+	if !ok {
+		return cfg, "", ""
+	}
 	dec := json.NewDecoder(bytes.NewReader([]byte(cfg)))
 	dec.UseNumber()
 	var root map[string]any
 	if dec.Decode(&root) != nil || root == nil {
-		return cfg, ""
+		return cfg, "", ""
 	}
-	l, ok := root["ranges"].([]any)
-	if !ok || len(l) == 0 {
-		return cfg, ""
+	ph := "{env." + name + "}"
+	var lit string
+	if k := strings.TrimSuffix(rot[0], "[]"); k != rot[0] {
+		l, ok := root[k].([]any)
+		if !ok || len(l) == 0 {
+			return cfg, "", ""
+		}
+		lit, _ = l[0].(string)
+		l[0] = ph
+	} else {
+		lit, _ = root[k].(string)
+		root[k] = ph
 	}
-	lit, ok := l[0].(string)
-	if !ok || lit == "" || strings.ContainsAny(lit, "{}") || lit == "private_ranges" {
-		return cfg, ""
+	if lit == "" || strings.ContainsAny(lit, "{}\x00") || lit == "private_ranges" {
+		return cfg, "", ""
 	}
-	l[0] = "{env." + name + "}"
 	out, err := json.Marshal(root)
 	if err != nil {
-		return cfg, ""
+		return cfg, "", ""
 	}
-	return string(out), lit
+	return string(out), lit, rot[1]
 }
